@@ -10,15 +10,38 @@ int main(int argc, char** argv)
         vrt::alias("latch", "c0", "cv");
         Latch* L = x.make<Latch>("latch", (int)x.param("count", 2));
         static const std::vector<const char*> names{"arrive", "wait", "arrive_and_wait"};
-        for (auto& menus : vrt::parse_prog(x.rt.cfg.prog)) {
-            x.worker([L, menus] {
+        // data=1 (C07): every arrival publishes a plain datum written before it; whoever gets through the latch reads the data of
+        // all arrivals.  Only for programs with exactly `count` arrivals (a surplus arrival would be a legitimate late writer).
+        bool data = x.param("data", 0) != 0;
+        auto prog = vrt::parse_prog(x.rt.cfg.prog);
+        auto slots = std::make_shared<std::vector<int>>();
+        {
+            int w = 0;
+            for (auto& menus : prog) {
+                ++w;
+                int k = 0;
                 for (auto& menu : menus) {
+                    ++k;
+                    if (menu.size() == 1 && menu[0] != 1) slots->push_back(8 * w + k);
+                }
+            }
+        }
+        int wid = 0;
+        for (auto& menus : prog) {
+            ++wid;
+            x.worker([L, menus, data, slots, wid] {
+                int k = 0;
+                for (auto& menu : menus) {
+                    ++k;
                     int op = vrt::pick_and_call(menu, names);
+                    if (data && op != 1) vrt::step_ev("pw", "data", 8 * wid + k, 1);
                     switch (op) {
                         case 0: L->arrive(); break;
                         case 1: L->wait(); break;
                         default: L->arrive_and_wait(); break;
                     }
+                    if (data && op != 0)
+                        for (int sl : *slots) vrt::step_ev("pr", "data", sl, 1);
                     vrt::ret_ev(names[(size_t)op]);
                 }
             });
